@@ -346,6 +346,9 @@ type SeederCfg struct {
 	Metadata     []byte
 	MetadataSize int // value to advertise (0 => len(Metadata) if Metadata != nil)
 	ReqQ         int
+	// MetaLie scripts the ut_metadata answers: "" honest | wrong-total-size | short-piece | long-piece | dup |
+	// unrequested-index | garbage | reject | wrong-content | stall
+	MetaLie string
 	// StopAfter: close the connection after this many served blocks (0 = never)
 	StopAfter int
 	// StallAfter: stop answering after this many served blocks (keeps the connection open)
